@@ -1,4 +1,7 @@
 """C20 — the core synchronisation primitives never allocate."""
+import collections
+import hashlib
+import os
 import re
 from vlib import core
 from vlib.runner import Spec, Suite
@@ -159,8 +162,13 @@ def gen_random(rng, heap_p=0.6, nops=None, small=False):
         elif r < 0.78:
             if b.parkers:
                 b.lines.append("sa %d %d" % (rng.randint(0, 1), rng.choice(b.parkers)))
-        elif r < 0.84:
+        elif r < 0.82:
             b.lines.append("%s %d" % (rng.choice(["sp", "sf"]), rng.randint(0, 1)))
+        elif r < 0.84:
+            if rng.random() < 0.5 and b.futs:
+                b.lines.append("rm %d %d %s" % (rng.randint(0, 1), rng.choice(b.futs + b.mainonly), rng.choice(KINDS)))
+            else:
+                b.lines.append("%s %d %d" % (rng.choice(["sm", "sg"]), rng.randint(0, 1), rng.randint(0, 1)))
         elif r < 0.88:
             if rng.random() < 0.5:
                 b.new_gen(b.mgens)
@@ -247,10 +255,45 @@ def gen_sp(rng):
         r = rng.random()
         if r < 0.6 and b.parkers:
             b.lines.append("sa %d %d" % (rng.choice([0, 0, 1]), rng.choice(b.parkers)))
-        elif r < 0.8:
+        elif r < 0.72:
             b.lines.append("sp %d" % rng.choice([0, 0, 1]))
+        elif r < 0.86:
+            b.lines.append("%s %d %d" % (rng.choice(["sm", "sg"]), rng.randint(0, 1), rng.randint(0, 1)))
         else:
             b.lines.append("sf %d" % rng.choice([0, 0, 1]))
+    return b.case()
+
+
+def gen_merge(rng):
+    """whole suspend points merged into each other: results of resolutions (0..5 released coroutines each) and the two
+    suspend point objects, by `<<` and by move-assignment; totals of exactly three handles are frequent"""
+    b = Builder(rng, rng.choice([0.0, 0.6, 1.0]))
+    nf = rng.randint(1, 4)
+    waiters = {}
+    for _ in range(nf):
+        f = b.new_fut(b.futs)
+        waiters[f] = rng.choice([0, 1, 1, 2, 2, 2, 3, 3, 4, 5])
+    for f, k in waiters.items():
+        for _ in range(k):
+            b.co(["a%d" % f] + rng.choice([[], [], ["p"], ["y"]]))
+        if rng.random() < 0.2:
+            b.lines.append("%s %d" % (rng.choice(["cb", "bs"]), f))
+    for _ in range(rng.randint(0, 3)):
+        b.co(["p"])
+    ops = ["rm %d %d %s" % (rng.choice([0, 0, 1]), f, rng.choice(KINDS)) for f in waiters]
+    ops += ["sa %d %d" % (rng.choice([0, 0, 1]), j) for j in b.parkers if rng.random() < 0.7]
+    rng.shuffle(ops)
+    out = []
+    for o in ops:
+        out.append(o)
+        r = rng.random()
+        if r < 0.35:
+            out.append("%s %d %d" % (rng.choice(["sm", "sg"]), rng.randint(0, 1), rng.randint(0, 1)))
+        elif r < 0.45:
+            out.append("%s %d" % (rng.choice(["sp", "sf"]), rng.randint(0, 1)))
+    for _ in range(rng.randint(0, 3)):
+        out.append(rng.choice(["sm 0 1", "sm 1 0", "sg 0 1", "sg 1 0", "sf 0", "sf 1", "sp 0", "sp 1"]))
+    b.lines += out
     return b.case()
 
 
@@ -324,7 +367,57 @@ class AllocSuite(Suite):
     nontrivial_rule = "the program executed at least one coroutine action or produced at least one allocation event"
     suppress = frozenset()   # categories not reported by the oracle (set during the search for an input that explains a broken obligation)
 
+    # ---- the model's prediction of the ready-queue allocations, per operation -------------------------------
+    # The listed finding is *what libstdc++'s deque does for the traffic the program causes*: map + first node on a thread's
+    # first use, one node per 64 enqueues, map re-allocation — exactly what the Lean model (Rq in Alloc.lean) predicts, op by op.
+    # A ready-queue allocation the model does not predict is not that finding.
+
+    def __init__(self):
+        self._gen = []
+        self._pred = {}
+        self._batched = False
+
+    @staticmethod
+    def _key(case):
+        txt = "\n".join([" ".join(case["lines"][0].split()[2:])] + case["lines"][1:])
+        return hashlib.md5(txt.encode()).digest()
+
+    def _run_driver(self, cases):
+        exe = core.driver_exe(self.driver)
+        if not os.path.exists(exe) or not cases:
+            return
+        cs = core.renumber([{"id": 0, "lines": list(c["lines"])} for c in cases])
+        res = core.run_cases(exe, cs, chunk=200, timeout=self.timeout)
+        none = {}
+        for c0, c in zip(cases, cs):
+            r = res.get(str(c["id"]))
+            if not r or r["rc"] != 0:
+                continue
+            pred = none
+            for n, l in enumerate(r["out"]):
+                if "a:ready-queue-node" in l:
+                    if pred is none:
+                        pred = {}
+                    pred[n] = [e[2] for e in events(parse_line(l)[2]) if e[0] == "a" and e[1] == "ready-queue-node"]
+            self._pred[self._key(c0)] = pred
+
+    def predicted(self, case):
+        """{output line index: sizes of the ready-queue allocations the model predicts there}; None = no prediction available"""
+        k = self._key(case)
+        if k not in self._pred and not self._batched:
+            self._batched = True
+            self._run_driver((core.load_corpus(self.corpus_prefix) if self.corpus_prefix else []) + self._gen)
+        if k not in self._pred:
+            self._run_driver([case])
+        return self._pred.get(k)
+
     def gen_cases(self, rng, tier):
+        cases = self._gen_cases(rng, tier)
+        self._gen = cases
+        self._batched = False
+        return cases
+
+    def _gen_cases(self, rng, tier):
         quick = tier == "quick"
         n = 4000 if quick else 300000
         cases = []
@@ -339,8 +432,10 @@ class AllocSuite(Suite):
                 c = gen_waiters(rng)
             elif r < 0.67:
                 c = gen_mutex(rng)
-            elif r < 0.79:
+            elif r < 0.74:
                 c = gen_sp(rng)
+            elif r < 0.79:
+                c = gen_merge(rng)
             elif r < 0.86:
                 c = gen_generator(rng)
             elif r < 0.97:
@@ -399,7 +494,10 @@ class AllocSuite(Suite):
         heap frame, and handle arrays of suspend points that already hold three handles (i.e. are about to carry more than three)"""
         msgs = []
         ops = case["lines"][1:]
-        for op, line in zip(ops, out):
+        pred = None
+        if any("a:ready-queue-node" in l for l in out):
+            pred = self.predicted(case)
+        for ln, (op, line) in enumerate(zip(ops, out)):
             w = op.split()
             name, head, toks = parse_line(line)
             evs = events(toks)
@@ -407,11 +505,22 @@ class AllocSuite(Suite):
             first_c = next((k for k, t in enumerate(toks) if t[0] == "c" and not t.startswith("cb")), len(toks))
             heap_create = w[0] in ("co", "gen") and len(w) > 2 and w[2] == "H" and head and head[0] != "skip"
             frames = [e for e in allocs if e[1] == "frame"]
+            # ready-queue allocations the model predicts for this operation (the listed finding); None: no prediction
+            # available (driver not built) -> nothing is called "extra"
+            budget = collections.Counter(pred.get(ln, [])) if pred is not None else None
             for e in allocs:
                 cat, n = e[1], e[2]
+                if cat == "ready-queue-node" and budget is not None:
+                    if budget[n] > 0:
+                        budget[n] -= 1
+                    else:
+                        cat = "ready-queue-extra"
                 if cat in self.suppress:
                     continue
-                if cat == "ready-queue-node":
+                if cat == "ready-queue-extra":
+                    msgs.append("ready-queue-extra: the thread-local ready queue of coro_queue allocated %d bytes during `%s` "
+                                "although its traffic (first use of the thread, 64th enqueue, map growth) does not call for it" % (n, op))
+                elif cat == "ready-queue-node":
                     msgs.append("ready-queue-node: the thread-local ready queue of coro_queue allocated %d bytes during `%s`" % (n, op))
                 elif cat == "frame":
                     if not heap_create:
@@ -422,7 +531,7 @@ class AllocSuite(Suite):
                                     "handles (up to %d must be carried without allocation), during `%s`" % (n, n // 2, INLINE, op))
                     else:
                         carried = next((int(h[2:]) for h in head if h.startswith("n=") and h[2:].isdigit()), None)
-                        if carried is not None and w[0] in ("res", "ul", "sa") and e[3] < first_c and carried <= INLINE:
+                        if carried is not None and w[0] in ("res", "ul", "sa", "rm", "sm", "sg") and e[3] < first_c and carried <= INLINE:
                             msgs.append("growth: a suspend point carrying %d <= %d handles allocated %d cells during `%s`"
                                         % (carried, INLINE, n, op))
                 else:
